@@ -250,7 +250,7 @@ def parseDOp (n party : Nat) (o : String) : Option Graph.Op :=
   | 'b' :: v => (parseNat? (String.ofList v)).bind fun v => if v < 1000 then some (.setB v) else none
   | _ => none
 
-def doDerived (spec progs sched : String) : String :=
+def doDerived (isEffect : Bool) (spec progs sched : String) : String :=
   match parseGraph spec with
   | some defs =>
     let ps := progs.splitOn "/"
@@ -261,7 +261,7 @@ def doDerived (spec progs sched : String) : String :=
     | some progs, some sc =>
       if progs.isEmpty || progs.length > 3 || progs.any (·.length > 5) then "bad-op" else
       let n := progs.length
-      let s := Graph.run (Graph.initDerived defs progs) (sc ++ tail n)
+      let s := Graph.run (Graph.initDerived defs progs isEffect) (sc ++ tail n)
       let parts := (List.range n).map fun i =>
         let th := s.ts i
         let rs := th.results.map showGRes ++ List.replicate (th.prog.length - th.results.length) "?"
@@ -278,7 +278,7 @@ def doDerived (spec progs sched : String) : String :=
       let memoStale := (ms.zip sc).any fun (r, w) => match r with | .val x => x != w | _ => false
       let verdict := if resPanic then "fail memo-read-panic"
         else if memoStale then "fail memo-stale"
-        else if sf.der.value != some want then "fail derived-stale" else "ok"
+        else if sf.der.value != some want then (if isEffect then "fail effect-stale" else "fail derived-stale") else "ok"
       s!"{String.join parts}fin={v}:{sf.sig},{sf.sigB} m={",".intercalate (ms.map showGRes)} ## {verdict}"
     | _, _ => "bad-op"
   | none => "bad-op"
@@ -349,9 +349,21 @@ def step (_ : Unit) (line : String) : Unit × String :=
     | ["chan", polls, ms, sc] => doChan polls ms sc
     | ["memo", ini, progs, sc] => doMemo ini progs sc
     | ["graph", spec, ini, gates, progs, sc] => doGraph spec ini gates progs sc
-    | ["derived", spec, progs, sc] => doDerived spec progs sc
+    | ["derived", spec, progs, sc] => doDerived false spec progs sc
+    | ["effect", spec, progs, sc] => doDerived true spec progs sc
     | ["imm", spec, prog] => doImm spec prog
     | ["sig", progs, sc] => doSig progs sc
+    | ["stress", "subs", rounds] =>
+      -- bounded real-thread stress: the model only states the expected outcome (testing, not correspondence)
+      match parseNat? rounds with
+      | some r => if r == 0 || r > 2000000 then "bad-op" else "kept ## ok"
+      | none => "bad-op"
+    | ["stress", "writes", fam, th, it] =>
+      match parseNat? th, parseNat? it with
+      | some th, some it =>
+        if !["rw", "rwguard", "arcrw", "arcrwguard", "write", "writeguard", "arcwrite", "arcwriteguard"].contains fam
+            || th == 0 || th > 4 || it > 1000000 then "bad-op" else "exact ## ok"
+      | _, _ => "bad-op"
     | ["stress", "effect", seed, wr, it] =>
       -- free-running threads: the model only states the expected outcome (testing, not correspondence)
       match parseNat? seed, parseNat? wr, parseNat? it with
